@@ -167,12 +167,15 @@ def configs(ctx: core.Ctx) -> list:
         sleeps = [[True, True]] if R.is2x(v) else [[True, False], [True, True]]
         # in 2.x the awake configurations are reachable via 'present'; starting asleep reaches all
         for sl in sleeps:
-            cfgs.append({"version": v, "keys": keys, "values": ["a", "b"], "sleep": sl})
+            k = keys
+            if ctx.quick and v != "2.2":
+                k = [[1, 3, 2], [2, 3, 2]]  # quick: the full key set only under 2.2
+            cfgs.append({"version": v, "keys": k, "values": ["a", "b"], "sleep": sl})
     # boundary ids: highest assignable node id 254, the gateway's own id 0, child ids 0 and 254
     for v in (["2.2"] if ctx.quick else ["1.5", "2.0", "2.2"]):
-        cfgs.append({"version": v, "nodes": [254, 0], "children": [0, 254], "keys": [[254, 0, 2], [254, 254, 2], [0, 0, 2]], "values": ["a", "b"], "sleep": [True, True]})
+        cfgs.append({"version": v, "nodes": [254, 0], "children": [0, 254], "keys": [[254, 0, 2], [0, 0, 2]] if ctx.quick else [[254, 0, 2], [254, 254, 2], [0, 0, 2]], "values": ["a", "b"], "sleep": [True, True]})
         # ids one of which is a decimal prefix of the other (25 / 254), child ids likewise (2 / 25)
-        cfgs.append({"version": v, "nodes": [25, 254], "children": [2, 25], "keys": [[25, 2, 2], [254, 25, 2], [254, 2, 25]], "values": ["a", "b"], "sleep": [True, True]})
+        cfgs.append({"version": v, "nodes": [25, 254], "children": [2, 25], "keys": [[25, 2, 2], [254, 25, 2]] if ctx.quick else [[25, 2, 2], [254, 25, 2], [254, 2, 25]], "values": ["a", "b"], "sleep": [True, True]})
     return cfgs
 
 
